@@ -169,7 +169,10 @@ func typeof(i interface{}) reflect.Type {
 func uuidExt(name string) (uuid, ext string) {
 	s := strings.SplitN(name, ".", 2)
 	uuid = s[0]
-	ext = fmt.Sprintf(".%s", s[1])
+	// a name without extension cannot be the one of an Object file
+	if len(s) == 2 {
+		ext = fmt.Sprintf(".%s", s[1])
+	}
 	return
 }
 
